@@ -5,6 +5,9 @@ import HcipyVerif.Model.Fraunhofer
 
 ```
 C03 setup lam f [dxp,dyp] [Nx,Ny] [zx,zy]      -> ok lamf=… norm=re:im uvscale=… wp=…
+C03 session [dxp,dyp] [Nx,Ny] [zx,zy] const a | affine a b   -> ok      (one propagator object, f(λ)=a or a+bλ)
+C03 setf const a | affine a b                  -> ok      (prop.focal_length = …)
+C03 at lam                                     -> as setup, for the session's current focal length
 C03 focal [dx,dy] [Mx,My] [zx,zy]              -> ok uvdelta=[…] uvzero=[…] wfac=… class=… M=[…] gain=…
 C03 focal cur                                  -> same, for the grid made by the last mkfocal/ffpg
 C03 mkfocal [qx,qy] [ax,ay] [srx,sry]           -> ok delta=[…] dims=[…] zero=[…] slack=[…]   (make_focal_grid)
@@ -17,6 +20,7 @@ namespace HcipyVerif.Driver.C03
 open HcipyVerif.Proto HcipyVerif.Fraunhofer
 
 structure St where
+  session : Option Session := none
   setup : Option Setup := none
   focal : Option RegGrid := none
 
@@ -34,6 +38,15 @@ def focalInfo (s : Setup) (g : RegGrid) : String :=
 def showGrid (g : RegGrid) (slack : List Rat) : String :=
   s!"ok delta={showRatList g.delta} dims={showNatList g.dims} zero={showRatList g.zero} slack={showRatList slack}"
 
+def parseSpec? : List String → Option FocalSpec
+  | ["const", a] => (parseRat? a).map .const
+  | ["affine", a, b] => do let a ← parseRat? a; let b ← parseRat? b; pure (.affine a b)
+  | _ => none
+
+def setupInfo (s : Setup) : String :=
+  let nf := normFactor s
+  s!"ok lamf={showRat (lamf s)} norm={showRat nf.1}:{showRat nf.2} uvscale={showRat (uvScaleTurns s)} wp={showRat s.pupil.weight}"
+
 def step (st : St) : List String → St × String
   | ["reset"] => ({}, "ok")
   | ["setup", lam, f, d, n, z] =>
@@ -45,6 +58,24 @@ def step (st : St) : List String → St × String
       ({ setup := some s, focal := none },
         s!"ok lamf={showRat (lamf s)} norm={showRat nf.1}:{showRat nf.2} uvscale={showRat (uvScaleTurns s)} wp={showRat s.pupil.weight}")
     | _, _, _, _, _ => (st, "bad-op")
+  | "session" :: d :: n :: z :: spec =>
+    match parseRatList? d, parseNatList? n, parseRatList? z, parseSpec? spec with
+    | some d, some n, some z, some f =>
+      if !okLen d.length d n z then (st, "err value") else
+      ({ session := some { pupil := { delta := d, dims := n, zero := z }, focalLength := f } }, "ok")
+    | _, _, _, _ => (st, "bad-op")
+  | "setf" :: spec =>
+    match st.session, parseSpec? spec with
+    | some s, some f => ({ st with session := some (s.setFocalLength f) }, "ok")
+    | none, some _ => (st, "err value")
+    | _, none => (st, "bad-op")
+  | ["at", lam] =>
+    match st.session, parseRat? lam with
+    | some s, some lam =>
+      let su := s.instanceAt lam
+      if lamf su = 0 then (st, "err value") else ({ st with setup := some su }, setupInfo su)
+    | none, some _ => (st, "err value")
+    | _, none => (st, "bad-op")
   | ["focal", "cur"] =>
     match st.setup, st.focal with
     | some s, some g => (st, focalInfo s g)
